@@ -266,26 +266,22 @@ def used_of(spec):
     return set(spec[1]) | set(spec[2])
 
 
-def rule_pairs(specs, perm):
-    """pairs (i<j) sharing a qubit which the real commutation_rules declares commuting"""
-    _, Instruction, Scheduler, _, _ = _mods()
-    if not perm:
-        return []
-    ins = [Instruction(make_gate(s)) for s in specs]
-    sch = Scheduler("ASAP")
-    out = []
+def known_class_pair(specs, N):
+    """The class of the recorded known finding of C05, described independently of the code under test:
+    two gates of the SAME name with equal (sorted) targets, or equal non-empty (sorted) controls, whose
+    unitaries do not commute (families that do not commute with themselves: QASMU, R, MS, FREDKIN, ...).
+    commutation_rules declares such a pair commuting; hypothesis H2 of schedule_den_partial excludes it.
+    Returns the first such pair (i, j) or None."""
     for i in range(len(specs)):
         for j in range(i + 1, len(specs)):
-            if ins[i].used_qubits & ins[j].used_qubits and sch.commutation_rules(j, i, ins):
-                out.append((i, j))
-    return out
-
-
-def h2_holds(specs, N, perm):
-    """hypothesis H2 of schedule_den_partial on this circuit: every qubit-sharing pair that
-    commutation_rules declares commuting really commutes (dense matrices, 1e-9)"""
-    for i, j in rule_pairs(specs, perm):
-        A, B = gate_matrix(specs[i], N), gate_matrix(specs[j], N)
-        if np.abs(A @ B - B @ A).max() > 1e-9:
-            return False, (i, j)
-    return True, None
+            a, b = specs[i], specs[j]
+            if a[0] != b[0] or not (used_of(a) & used_of(b)):
+                continue
+            same_t = sorted(a[1]) == sorted(b[1])
+            same_c = bool(a[2]) and sorted(a[2]) == sorted(b[2])
+            if not (same_t or same_c):
+                continue
+            A, B = gate_matrix(a, N), gate_matrix(b, N)
+            if np.abs(A @ B - B @ A).max() > 1e-9:
+                return (i, j)
+    return None
